@@ -97,7 +97,7 @@ hdr = ["Each of the 20 properties was given to a fresh sub-agent that saw only t
        "the very change of r2-C03-2, the one documented miss of every earlier round, written again",
        "independently. After strengthening (C03.S5 declared extent honoured; C01.R14 no value-selected",
        "partial serialisation; C01.R15 fixed-width fields are encoded from the stored value, never from a",
-       "size table): 16 own, 3 only by another, 1 by none (r7-C14-2: a fail-fast parser guard that assumes",
+       "size table; C06.G8 = C11.M5): 17 own, 2 only by another, 1 by none (r7-C14-2: a fail-fast parser guard that assumes",
        "a 64-byte trailing signature). r7-C18-2's race demonstration passed once with the change at machine",
        "load 200 and fails reliably on an idle machine (recorded in its confirm.txt).",
        "",
